@@ -85,6 +85,7 @@ type Ctx struct {
 	rangeSeen   map[string]bool
 	dIndex      *declIndex
 	simp        *simpState
+	tracked     map[string]bool // callee names counted by calls(Name) in this function's contract
 	pureAxDone  map[string]bool // pure functions whose postconditions were added as a function axiom
 }
 
